@@ -267,6 +267,13 @@ class IoSim(Engine):
                 src = io.StringIO(doc)
             elif kind == 'bytesio':
                 src = io.BytesIO(data)
+            elif kind == 'bytesio_utf16':
+                # a binary stream in another encoding YAML allows (recognised by its BOM)
+                src = io.BytesIO(doc.encode('utf-16'))
+            elif kind == 'bytesio_utf16be':
+                src = io.BytesIO(b'\xfe\xff' + doc.encode('utf-16-be'))
+            elif kind == 'bytesio_utf8bom':
+                src = io.BytesIO(b'\xef\xbb\xbf' + data)
             elif kind == 'textio_sim':
                 src = simio.raw_stack(data, rawplan, st_, 'text', knobs)
             elif kind == 'buffered_sim':
@@ -318,6 +325,8 @@ class IoSim(Engine):
             # (after a header line a BOM is no longer at the start, and text-mode newline
             # translation of the header would change what "the rest" is)
             kinds0 += ['textio_after_next', 'stringio_after_readline', 'buffered_after_readline']
+        if not doc.startswith('\ufeff'):
+            kinds0 += ['bytesio_utf16', 'bytesio_utf16be', 'bytesio_utf8bom']
         for kind in kinds0:
             out = load_kind(kind)
             check(kind, out, 'whole', 'whole')
